@@ -96,6 +96,7 @@ type written struct {
 	file      []byte
 	items     []item
 	title     string
+	metaTitle string
 	meta      *pdf.MetadataStream
 	nStrings  int
 	nStreams  int
@@ -166,7 +167,8 @@ func writeDoc(spec docSpec) (w *written, err error) {
 	if withMeta {
 		packet := xmp.NewPacket()
 		dc := &xmp.DublinCore{}
-		dc.Title.Set(language.Und, fmt.Sprintf("C09 metadata %d", metaNo))
+		w.metaTitle = fmt.Sprintf("C09 metadata %d", metaNo)
+		dc.Title.Set(language.Und, w.metaTitle)
 		if err := packet.Set(dc); err != nil {
 			return w, err
 		}
